@@ -17,6 +17,9 @@
                     data messages retryable), the fee limit deducted from the base asset with checked_sub
                     (InsufficientFeeAmount), every coin output deducted with checked_sub
                     (InsufficientInputAmount) from an existing asset (else ...CoinAssetIdNotFound).
+  ALG-duplicates     the shared duplicate finder behind DuplicateInputUtxoId / DuplicateInputContractId /
+                     DuplicateMessageInputId is a whole-sequence detector (Itertools::duplicates, a set, or sort +
+                     neighbour comparison) — a neighbour-only comparison without sorting misses [A, B, A].
 Not decided: "accepts exactly" in the other direction (no spurious rejection), arithmetic values.
 """
 import json
@@ -60,6 +63,19 @@ def run(F, rep, tier, allfacts):
     rep.rule("MAT-kinds", "every transaction kind reaches the common, per-input/output and unique rule sets")
     rep.rule("DOM-into_checked", "precompute? and check_without_signatures? precede Checked::basic; metadata from initial_free_balances(self)")
     rep.rule("SHAPE-balances", "checked arithmetic and error mapping of the free-balance computation")
+    rep.rule("ALG-duplicates", "next_duplicate (duplicate utxo id / contract id / nonce rules) detects duplicates anywhere in the sequence, not only adjacent ones")
+    dn, df = F.find(r"^fuel_tx::transaction::validity::next_duplicate$", ["fuel_tx"], one=True)
+    rep.saw(dn)
+    dcs = [callee_name(c) for i, c, *_ in calls(df)] + [callee_name(c) for cn, cf in F.find(re.escape(dn) + r"::\{closure#\d+\}$", ["fuel_tx"], required=False) for i, c, *_ in calls(cf)]
+    glob = any(re.search(r"Itertools::(duplicates|duplicates_by|counts|counts_by|unique|unique_by|all_unique)$|HashSet.*::insert$|BTreeSet.*::insert$|HashMap.*::(insert|entry)$", x) for x in dcs)
+    srt = any(re.search(r"Itertools::sorted\w*$|::sort(_unstable)?(_by\w*)?$", x) for x in dcs)
+    adj = [x for x in dcs if re.search(r"Itertools::(dedup\w*|tuple_windows|coalesce)$|slice::<impl \[T\]>::windows$|Vec<.*>::dedup\w*$", x)]
+    rep.check(glob or srt or not adj, "ALG-duplicates", "next_duplicate:not-adjacent-only", "%s:%s" % (df["file"], df["line"]),
+              "next_duplicate compares only neighbouring items (%s) without sorting first: two equal ids separated by another input of the same kind are not reported" % [x.rsplit("::", 1)[-1] for x in adj])
+    if not (glob or srt):
+        rep.note("ALG-duplicates: next_duplicate uses neither a known whole-sequence detector nor sort+adjacent comparison; callees %s" % dcs)
+    nd = [n_ for n_, i, c, args, line in CallGraph(F, ["fuel_tx"]).callers_of(r"^fuel_tx::transaction::validity::next_duplicate$")]
+    rep.check(nd.count("fuel_tx::transaction::validity::check_common_part") == 3, "ALG-duplicates", "check_common_part:three-duplicate-rules-use-it", None, "callers %s" % nd)
 
     got = extract(F)
     if os.environ.get("FV_WRITE_TABLES") == "1":
